@@ -420,7 +420,7 @@ impl<'e> Sim<'e> {
             // a clone that is not even a coherent cache (or whose links point into the source)
             // is not "an equal and fully independent cache"
             let o = 1 - t;
-            let extra: Vec<(usize, ObsClass, String)> = findings.iter().filter(|f| f.0 == o && matches!(f.1, ObsClass::Walk | ObsClass::Mirror | ObsClass::Token)).cloned().collect();
+            let extra: Vec<(usize, ObsClass, String)> = findings.iter().filter(|f| f.0 == o && matches!(f.1, ObsClass::Walk | ObsClass::Mirror | ObsClass::Token | ObsClass::Lookup | ObsClass::Dup)).cloned().collect();
             for (_, _, m) in extra {
                 self.push(C14, "clone-incoherent", format!("the clone is not a coherent cache of its own: {}", m));
             }
@@ -752,29 +752,38 @@ fn marathon(c: &mut Cache, cfg: &Config, overhead: usize) {
     let k = (cfg.max_size / (overhead + vh).max(1)).clamp(1, 4096);
     let mut recent: Vec<u32> = Vec::with_capacity(k);
     let mut next_id: u32 = 50_000_000;
+    // share of the evictions that happen inside a growing `mutate` rather than inside `insert`
+    let mutate_pct = *rng.pick(&[15u64, 50, 85]);
     let r = catch_unwind(AssertUnwindSafe(|| {
-        for i in 0..cfg.marathon {
-            match rng.below(8) {
-                0..=4 => {
-                    next_id += 1;
-                    let _ = c.insert(SimKey::new(next_id, 0), SimVal::new(vh));
-                    if recent.len() >= k {
-                        recent.remove(0);
-                    }
-                    recent.push(next_id);
-                }
-                5 | 6 if !recent.is_empty() => {
-                    let id = recent[rng.usize_below(recent.len())];
-                    let grow = rng.bool();
-                    let _ = c.mutate(&KeyId(id), |v| v.heap = if grow { vh + 8 } else { vh });
-                }
-                _ if !recent.is_empty() => {
-                    let id = recent[rng.usize_below(recent.len())];
-                    let _ = c.get(&KeyId(id));
-                }
-                _ => {}
+        let mut i = 0u32;
+        while i < cfg.marathon {
+            if recent.len() >= k.min(4) && rng.below(100) < mutate_pct {
+                // grow an entry of the full cache (evicts the LRU entry inside mutate), shrink it
+                // back, refill the freed room with a new key (no eviction)
+                let id = recent[rng.usize_below(recent.len())];
+                let _ = c.mutate(&KeyId(id), |v| v.heap = vh + 8);
+                let _ = c.mutate(&KeyId(id), |v| v.heap = vh);
+                next_id += 1;
+                let _ = c.insert(SimKey::new(next_id, 0), SimVal::new(vh));
+                recent.push(next_id);
+                i += 3;
+            } else if rng.below(8) == 0 && !recent.is_empty() {
+                let id = recent[rng.usize_below(recent.len())];
+                let _ = c.get(&KeyId(id));
+                i += 1;
+            } else {
+                // plain FIFO insertion: evicts the LRU entry inside insert once the cache is full
+                next_id += 1;
+                let _ = c.insert(SimKey::new(next_id, 0), SimVal::new(vh));
+                recent.push(next_id);
+                i += 1;
             }
-            if i % 512 == 511 {
+            if recent.len() > 2 * k + 8 {
+                // keep only ids that are probably still present (the newest k)
+                let cut = recent.len() - k;
+                recent.drain(..cut);
+            }
+            if i % 512 < 3 {
                 clear_events();
                 crate::coord::heartbeat();
             }
